@@ -5,7 +5,9 @@ package tor
 import (
 	"context"
 	"math/rand/v2"
+	"time"
 
+	"github.com/jech/storrent/hash"
 	"github.com/jech/storrent/peer"
 )
 
@@ -99,5 +101,26 @@ var VerifYield func(point string)
 func verifYield(point string) {
 	if f := VerifYield; f != nil {
 		f(point)
+	}
+}
+
+// VerifAnnounce, when non-nil, observes every DHT announce just before the
+// DHT library is called.
+var VerifAnnounce func(h hash.Hash, ipv6 bool, port uint16)
+
+func verifAnnounce(h hash.Hash, ipv6 bool, port uint16) {
+	if f := VerifAnnounce; f != nil {
+		f(h, ipv6, port)
+	}
+}
+
+// VerifTickPeriod, when non-zero, replaces the period of the run loop's
+// two tickers (set before the torrent is added).
+var VerifTickPeriod time.Duration
+
+func verifTickers(ticker, slowTicker *time.Ticker) {
+	if d := VerifTickPeriod; d > 0 {
+		ticker.Reset(d)
+		slowTicker.Reset(d)
 	}
 }
